@@ -4,6 +4,7 @@
 -/
 import PercevalModel.Lemmas.C10
 import PercevalModel.Lemmas.C10More
+import PercevalModel.Lemmas.C10Ext
 import PercevalModel.Num.GQ
 
 open Matrix
@@ -241,7 +242,7 @@ appended for the heralds of an added processor must be reserved exactly like her
 
 /-- whatever `Processor.add` accepts, the circuit size and the mode availability it leaves behind are
 `csAfter` / `connAfter` (for every mapping, every flag setting) -/
-theorem compose_conn (f1 f2 f3 : Bool) (l r : Side) (raw : RawMap) (keep : Bool) (res : Result)
+theorem compose_conn (f1 : RFlags) (f2 f3 : Bool) (l r : Side) (raw : RawMap) (keep : Bool) (res : Result)
     (h : compose f1 f2 f3 l r raw keep = .ok res) :
     res.cs = csAfter l r ∧ res.conn = connAfter l r := by
   unfold compose at h
@@ -304,7 +305,7 @@ theorem mapping_onto_imported_herald_rejected (l r : Side) (hl : l.conn.length =
 
 /-- `resolve` (int, list, dict / port-name mappings alike) only returns mappings whose left modes are all
 connectible -/
-theorem resolve_keys_connectible (fixed : Bool) (l r : Side) (raw : RawMap) (d : Dict)
+theorem resolve_keys_connectible (fixed : RFlags) (l r : Side) (raw : RawMap) (d : Dict)
     (h : resolve fixed l r raw = .ok d) : ∀ p ∈ d, connectible l.cs l.conn p.1 = true := by
   have key : ∀ d' : Dict, checkConsistency l.cs l.conn r.m d' = .ok () →
       ∀ p ∈ d', connectible l.cs l.conn p.1 = true := by
@@ -336,7 +337,7 @@ theorem resolve_keys_connectible (fixed : Bool) (l r : Side) (raw : RawMap) (d :
 /-- **two successive adds**: after a processor was plugged (by any mapping), no mapping the next `add`
 accepts — offset, list, dictionary or port names, for any object — touches a mode imported for its
 heralds; the next `add` sees exactly the old modes, with their old availability. -/
-theorem second_add_avoids_imported_heralds (f1 f2 f3 fixed : Bool) (l r : Side) (raw : RawMap)
+theorem second_add_avoids_imported_heralds (f1 fixed : RFlags) (f2 f3 : Bool) (l r : Side) (raw : RawMap)
     (keep : Bool) (res : Result) (hl : l.conn.length = l.cs) (hr : r.comp = false)
     (h : compose f1 f2 f3 l r raw keep = .ok res)
     (l' r' : Side) (hcs : l'.cs = res.cs) (hconn : l'.conn = res.conn) (raw' : RawMap) (d : Dict)
@@ -455,7 +456,7 @@ ports sit on modes that are not connectible. -/
 any flag setting — the circuit grew by one mode per herald of the added processor; `heralds` is the old
 dictionary followed, in the order of the added processor's `heralds`, by `circuit_size + i ↦ expectedᵢ`;
 `detectors` is the old list followed by the detectors the added processor had on its herald modes. -/
-theorem heralds_appended (f1 f2 f3 : Bool) (l r : Side) (raw : RawMap) (keep : Bool) (res : Result)
+theorem heralds_appended (f1 : RFlags) (f2 f3 : Bool) (l r : Side) (raw : RawMap) (keep : Bool) (res : Result)
     (hr : r.comp = false)
     (hlh : l.heralds = heraldsOf l.outp)
     (hlc : ∀ p ∈ l.outp, p.herald = true → ∀ k : Nat, p.start ≤ k → k < p.start + p.size →
@@ -477,7 +478,7 @@ theorem heralds_appended (f1 f2 f3 : Bool) (l r : Side) (raw : RawMap) (keep : B
 
 /-- a bare component brings no herald: size, heralds and detectors are unchanged (whether or not the
 output ports under the mapped modes are removed) -/
-theorem heralds_unchanged_component (f1 f2 f3 : Bool) (l r : Side) (raw : RawMap) (keep : Bool)
+theorem heralds_unchanged_component (f1 : RFlags) (f2 f3 : Bool) (l r : Side) (raw : RawMap) (keep : Bool)
     (res : Result) (hr : r.comp = true)
     (hlh : l.heralds = heraldsOf l.outp)
     (hlc : ∀ p ∈ l.outp, p.herald = true → ∀ k : Nat, p.start ≤ k → k < p.start + p.size →
@@ -504,7 +505,7 @@ theorem connectible_after_false (l r : Side) (hl : l.conn.length = l.cs) (k : In
     | true => simpa [csAfter, connAfter, hr] using h
     | false => exact imported_heralds_reserved l r hl hr k (by omega)
 
-theorem compose_keeps_heralds_reserved (f1 f2 f3 : Bool) (l r : Side) (raw : RawMap) (keep : Bool)
+theorem compose_keeps_heralds_reserved (f1 : RFlags) (f2 f3 : Bool) (l r : Side) (raw : RawMap) (keep : Bool)
     (res : Result) (hl : l.conn.length = l.cs)
     (hrh : r.comp = false → r.heralds = heraldsOf r.outp)
     (hres : HeraldPortsReserved l.cs l.conn l.outp)
@@ -545,7 +546,7 @@ theorem compose_keeps_heralds_reserved (f1 f2 f3 : Bool) (l r : Side) (raw : Raw
       rw [ecs, econn, hst]
       exact imported_heralds_reserved l r hl hr _ (by push_cast; omega)
 
-theorem result_heralds_reserved (f1 f2 f3 : Bool) (l r : Side) (raw : RawMap) (keep : Bool)
+theorem result_heralds_reserved (f1 : RFlags) (f2 f3 : Bool) (l r : Side) (raw : RawMap) (keep : Bool)
     (res : Result) (hl : l.conn.length = l.cs)
     (hrh : r.comp = false → r.heralds = heraldsOf r.outp)
     (hres : HeraldPortsReserved l.cs l.conn l.outp)
@@ -603,7 +604,7 @@ theorem genPerm_raises_iff (mp : NMap) (hne : mp ≠ []) (hk : mp.keys.Nodup) (e
 the added object (no herald, nothing out of range) and the added object is well formed, the mapping
 `compose` hands to `generate_permutation` — the heralded modes of an added processor included — is legal,
 so `generate_permutation` returns. -/
-theorem genPerm_ok_of_accepted (fixed : Bool) (l r : Side) (raw : RawMap) (d : Dict) (mp : NMap)
+theorem genPerm_ok_of_accepted (fixed : RFlags) (l r : Side) (raw : RawMap) (d : Dict) (mp : NMap)
     (h : resolve fixed l r raw = .ok d) (hm : toNMap d = some mp) (hwf : RightWF r)
     (hvals : ∀ v ∈ mp.vals, v ∈ orderedRModes r) :
     ∃ σ, genPerm (permInput l r mp) = .ok σ := by
@@ -612,7 +613,7 @@ theorem genPerm_ok_of_accepted (fixed : Bool) (l r : Side) (raw : RawMap) (d : D
 
 /-- offset and list mappings need no side condition: every one `resolve` accepts goes through
 `generate_permutation` -/
-theorem genPerm_ok_of_accepted_int_list (fixed : Bool) (l r : Side) (raw : RawMap) (d : Dict)
+theorem genPerm_ok_of_accepted_int_list (fixed : RFlags) (l r : Side) (raw : RawMap) (d : Dict)
     (hraw : ∀ items, raw ≠ .ofDict items) (hwf : RightWF r)
     (h : resolve fixed l r raw = .ok d) :
     ∃ mp σ, toNMap d = some mp ∧ genPerm (permInput l r mp) = .ok σ := by
@@ -624,7 +625,7 @@ theorem genPerm_ok_of_accepted_int_list (fixed : Bool) (l r : Side) (raw : RawMa
 `AssertionError` `Processor.add` can end in is the explicit `can_compose_with` assertion about the left
 post-selection — never PERM's, neither in `_add_component` nor in `_compose_experiment` (heralded modes
 included). -/
-theorem compose_no_perm_assertion (f1 f2 f3 : Bool) (l r : Side) (raw : RawMap) (keep : Bool)
+theorem compose_no_perm_assertion (f1 : RFlags) (f2 f3 : Bool) (l r : Side) (raw : RawMap) (keep : Bool)
     (hraw : ∀ items, raw ≠ .ofDict items) (hwf : RightWF r)
     (h : compose f1 f2 f3 l r raw keep = .error .assertion) :
     ∃ d, resolve f1 l r raw = .ok d ∧ validatePS l (d.keys.map Int.toNat) = .error .assertion := by
@@ -636,7 +637,7 @@ theorem compose_no_perm_assertion (f1 f2 f3 : Bool) (l r : Side) (raw : RawMap) 
   exact ⟨σ, hσ⟩
 
 /-- in particular, on a left processor without post-selection such an `add` never raises `AssertionError` -/
-theorem compose_int_list_never_assertion (f1 f2 f3 : Bool) (l r : Side) (raw : RawMap) (keep : Bool)
+theorem compose_int_list_never_assertion (f1 : RFlags) (f2 f3 : Bool) (l r : Side) (raw : RawMap) (keep : Bool)
     (hraw : ∀ items, raw ≠ .ofDict items) (hwf : RightWF r) (hps : l.ps = none) :
     compose f1 f2 f3 l r raw keep ≠ .error .assertion := by
   intro h
@@ -647,7 +648,7 @@ theorem compose_int_list_never_assertion (f1 f2 f3 : Bool) (l r : Side) (raw : R
 
 /-- **offset mapping** `add(b, obj)`: accepted iff it stands for `{b+i : r_list[i]}`, the `m` consecutive left
 modes `b … b+m-1` are all connectible and the right-hand modes of interest are distinct -/
-theorem resolve_int_ok_iff (fixed : Bool) (l r : Side) (b : Int) (d : Dict) (hm : 0 < r.m) :
+theorem resolve_int_ok_iff (fixed : RFlags) (l r : Side) (b : Int) (d : Dict) (hm : 0 < r.m) :
     resolve fixed l r (.ofInt b) = .ok d ↔
       d = intMap b r ∧ (∀ i : Nat, i < r.m → connectible l.cs l.conn (b + i) = true) ∧
         (intMap b r).vals.Nodup := by
@@ -666,7 +667,7 @@ theorem resolve_int_ok_iff (fixed : Bool) (l r : Side) (b : Int) (d : Dict) (hm 
 
 /-- for a well-formed right-hand object the last condition always holds: an offset mapping is accepted iff
 modes `b … b+m-1` are connectible … -/
-theorem resolve_int_ok_iff_wf (fixed : Bool) (l r : Side) (b : Int) (d : Dict) (hm : 0 < r.m)
+theorem resolve_int_ok_iff_wf (fixed : RFlags) (l r : Side) (b : Int) (d : Dict) (hm : 0 < r.m)
     (hwf : RightWF r) :
     resolve fixed l r (.ofInt b) = .ok d ↔
       d = intMap b r ∧ ∀ i : Nat, i < r.m → connectible l.cs l.conn (b + i) = true := by
@@ -676,7 +677,7 @@ theorem resolve_int_ok_iff_wf (fixed : Bool) (l r : Side) (b : Int) (d : Dict) (
   exact ⟨fun h => ⟨h.1, h.2.1⟩, fun h => ⟨h.1, h.2, this⟩⟩
 
 /-- … and is refused otherwise with `UnavailableModeException`, nothing else -/
-theorem resolve_int_error_iff_wf (fixed : Bool) (l r : Side) (b : Int) (e : Err) (hm : 0 < r.m)
+theorem resolve_int_error_iff_wf (fixed : RFlags) (l r : Side) (b : Int) (e : Err) (hm : 0 < r.m)
     (hwf : RightWF r) :
     resolve fixed l r (.ofInt b) = .error e ↔
       e = .unavailable ∧ ∃ i : Nat, i < r.m ∧ connectible l.cs l.conn (b + i) = false := by
@@ -705,7 +706,7 @@ theorem resolve_int_error_iff_wf (fixed : Bool) (l r : Side) (b : Int) (e : Err)
 /-- **list mapping** `add([k0, k1, …], obj)` onto a well-formed right-hand object with `m ≥ 1` modes of
 interest: accepted iff the list has `m` entries, no repetition, and names only connectible left modes; the
 resolved mapping is then `zip(list, r_list)` -/
-theorem resolve_list_ok_iff (fixed : Bool) (l r : Side) (ks : List Int) (d : Dict) (hm : 0 < r.m)
+theorem resolve_list_ok_iff (fixed : RFlags) (l r : Side) (ks : List Int) (d : Dict) (hm : 0 < r.m)
     (hwf : RightWF r) :
     resolve fixed l r (.ofList ks) = .ok d ↔
       ks.length = r.m ∧ ks.Nodup ∧ (∀ k ∈ ks, connectible l.cs l.conn k = true) ∧
@@ -752,7 +753,7 @@ theorem resolve_list_ok_iff (fixed : Bool) (l r : Side) (ks : List Int) (d : Dic
     · rintro ⟨h, _⟩; exact absurd h hlen
 
 /-- … refused with `InvalidMappingException` exactly when the size is wrong or a left mode is repeated … -/
-theorem resolve_list_invalid_iff (fixed : Bool) (l r : Side) (ks : List Int) (hm : 0 < r.m)
+theorem resolve_list_invalid_iff (fixed : RFlags) (l r : Side) (ks : List Int) (hm : 0 < r.m)
     (hwf : RightWF r) :
     resolve fixed l r (.ofList ks) = .error .invalid ↔ ks.length ≠ r.m ∨ ¬ ks.Nodup := by
   have hrl := orderedRModes_length r hwf
@@ -796,7 +797,7 @@ theorem resolve_list_invalid_iff (fixed : Bool) (l r : Side) (ks : List Int) (hm
 
 /-- … and with `UnavailableModeException` exactly when it is a duplicate-free list of the right size that
 names a left mode that is not connectible -/
-theorem resolve_list_unavailable_iff (fixed : Bool) (l r : Side) (ks : List Int) (hm : 0 < r.m)
+theorem resolve_list_unavailable_iff (fixed : RFlags) (l r : Side) (ks : List Int) (hm : 0 < r.m)
     (hwf : RightWF r) :
     resolve fixed l r (.ofList ks) = .error .unavailable ↔
       ks.length = r.m ∧ ks.Nodup ∧ ∃ k ∈ ks, connectible l.cs l.conn k = false := by
@@ -845,6 +846,611 @@ theorem resolve_list_unavailable_iff (fixed : Bool) (l r : Side) (ks : List Int)
     · rintro ⟨-, -, h⟩
       rw [hu.2 ⟨by rw [hL, hlen], h⟩]
 
+/-! # The dictionary / port-name form of `resolve` in closed form
+
+`resolve` on a dictionary runs `_mapping_type_checks`, then a loop that turns every item into `(left mode,
+right mode)` pairs stored in a Python dictionary (a later store on the same left mode overwrites the earlier
+one in place), then `_check_consistency`.  `itemPairs` is what one item stands for, `allPairs` the
+concatenation; `resolveItems_eq` (Lemmas) proves the loop stores exactly those pairs. -/
+
+/-- **every key form**, one statement: an item that is not `int: int` stands for `zip l_idx r_idx`, where
+`l_idx` comes from the key (`[k]` for an int, the modes of the output port for a name) and `r_idx` from the
+value (`[v]` for an int — only when `l_idx` has one mode —, the list itself, the modes of the input port for a
+name — only on a processor), and the two must have the same length; an item the code ignores stands for
+nothing. -/
+theorem itemPairs_ok_iff (fx : RFlags) (l r : Side) (k : MKey) (v : MVal) (ps : List (Int × Int))
+    (hkv : ∀ a b, ¬ (k = .int a ∧ v = .int b)) :
+    itemPairs fx l r (k, v) = .ok ps ↔
+      (leftIdx fx l k v = .ok none ∧ ps = []) ∨
+      ∃ lidx ridx, leftIdx fx l k v = .ok (some lidx) ∧ rightIdx fx r lidx.length v = .ok ridx ∧
+        lidx.length = ridx.length ∧ ps = lidx.zip ridx := by
+  have key : itemPairs fx l r (k, v) =
+      (match leftIdx fx l k v with
+       | .error e => .error e
+       | .ok none => .ok []
+       | .ok (some lidx) => match rightIdx fx r lidx.length v with
+         | .error e => .error e
+         | .ok ridx => if lidx.length ≠ ridx.length then .error .invalid else .ok (lidx.zip ridx)) := by
+    cases k with
+    | int a =>
+      cases v with
+      | int b => exact absurd ⟨rfl, rfl⟩ (hkv a b)
+      | name s =>
+        simp only [itemPairs, bind, Except.bind]
+        cases leftIdx fx l (.int a) (.name s) with
+        | error e => rfl
+        | ok o => cases o with
+          | none => rfl
+          | some lidx => simp only []; cases rightIdx fx r lidx.length (.name s) <;> rfl
+      | list vs =>
+        simp only [itemPairs, bind, Except.bind]
+        cases leftIdx fx l (.int a) (.list vs) with
+        | error e => rfl
+        | ok o => cases o with
+          | none => rfl
+          | some lidx => simp only []; cases rightIdx fx r lidx.length (.list vs) <;> rfl
+    | name a =>
+      simp only [itemPairs, bind, Except.bind]
+      cases leftIdx fx l (.name a) v with
+      | error e => rfl
+      | ok o => cases o with
+        | none => rfl
+        | some lidx => simp only []; cases rightIdx fx r lidx.length v <;> rfl
+  rw [key]
+  cases hl : leftIdx fx l k v with
+  | error e => simp
+  | ok o =>
+    cases o with
+    | none => simp [eq_comm]
+    | some lidx =>
+      simp only [Except.ok.injEq, Option.some.injEq, reduceCtorEq, false_and, false_or]
+      cases hr : rightIdx fx r lidx.length v with
+      | error e =>
+        simp only [reduceCtorEq, false_iff, not_exists, not_and]
+        intro x1 x2 h1 h2
+        cases h1
+        rw [hr] at h2; cases h2
+      | ok ridx =>
+        simp only []
+        constructor
+        · intro h
+          split_ifs at h with hne
+          cases h
+          exact ⟨lidx, ridx, rfl, by rw [hr], not_not.1 hne, rfl⟩
+        · rintro ⟨lidx', ridx', rfl, h2, h3, rfl⟩
+          rw [hr] at h2; cases h2
+          rw [if_neg (not_not.2 h3)]
+
+/-- `int: int` is stored as it is -/
+theorem itemPairs_int_int (fx : RFlags) (l r : Side) (k v : Int) :
+    itemPairs fx l r (.int k, .int v) = .ok [(k, v)] := rfl
+
+/-- `'port name': int` (repaired behaviour): accepted iff the output port `k` of the left processor exists and
+has exactly one mode; it stands for `first mode of the port ↦ v` -/
+theorem itemPairs_name_int_ok_iff (fx : RFlags) (l r : Side) (k : String) (v : Int)
+    (ps : List (Int × Int)) :
+    itemPairs fx l r (.name k, .int v) = .ok ps ↔
+      fx.name = true ∧ l.outNames.count k = 1 ∧ ps = [(Int.ofNat (l.outNames.idxOf k), v)] := by
+  rw [itemPairs_ok_iff fx l r _ _ ps (by rintro a b ⟨h, -⟩; cases h)]
+  simp only [leftIdx, rightIdx]
+  constructor
+  · rintro (⟨h, -⟩ | ⟨lidx, ridx, h1, h2, h3, rfl⟩)
+    · cases hp : resolvePort l.outNames k <;> rw [hp] at h <;> cases h
+    · cases hp : resolvePort l.outNames k with
+      | none => rw [hp] at h1; cases h1
+      | some x =>
+        rw [hp] at h1; cases h1
+        obtain ⟨hc, rfl⟩ := (resolvePort_some_iff _ _ _).1 hp
+        rw [portModes_length] at h2 h3
+        split_ifs at h2 with hc1 hn
+        cases h2
+        refine ⟨hn, hc1, ?_⟩
+        simp [portModes, hc1]
+  · rintro ⟨hn, hc, rfl⟩
+    right
+    have hp : resolvePort l.outNames k = some (portModes l.outNames k) :=
+      (resolvePort_some_iff _ _ _).2 ⟨by omega, rfl⟩
+    refine ⟨portModes l.outNames k, [v], by rw [hp], ?_, by simp [portModes_length, hc], ?_⟩
+    · rw [portModes_length, if_pos hc, if_pos hn]
+    · simp [portModes, hc]
+
+/-- `'port name': [modes]`: accepted iff the output port exists and the list has as many entries as the port
+has modes; it stands for `zip(modes of the port, list)` -/
+theorem itemPairs_name_list_ok_iff (fx : RFlags) (l r : Side) (k : String) (vs : List Int)
+    (ps : List (Int × Int)) :
+    itemPairs fx l r (.name k, .list vs) = .ok ps ↔
+      0 < l.outNames.count k ∧ vs.length = l.outNames.count k ∧
+        ps = (portModes l.outNames k).zip vs := by
+  rw [itemPairs_ok_iff fx l r _ _ ps (by rintro a b ⟨h, -⟩; cases h)]
+  simp only [leftIdx, rightIdx]
+  constructor
+  · rintro (⟨h, -⟩ | ⟨lidx, ridx, h1, h2, h3, rfl⟩)
+    · cases hp : resolvePort l.outNames k <;> rw [hp] at h <;> cases h
+    · cases hp : resolvePort l.outNames k with
+      | none => rw [hp] at h1; cases h1
+      | some x =>
+        rw [hp] at h1; cases h1; cases h2
+        obtain ⟨hc, rfl⟩ := (resolvePort_some_iff _ _ _).1 hp
+        rw [portModes_length] at h3
+        exact ⟨hc, h3.symm, rfl⟩
+  · rintro ⟨hc, hl, rfl⟩
+    right
+    have hp : resolvePort l.outNames k = some (portModes l.outNames k) :=
+      (resolvePort_some_iff _ _ _).2 ⟨hc, rfl⟩
+    exact ⟨_, vs, by rw [hp], rfl, by rw [portModes_length, hl], rfl⟩
+
+/-- `'output port': 'input port'`: accepted iff the right-hand object is a processor, both ports exist and
+have the same number of modes; it stands for `zip(modes of the one, modes of the other)` -/
+theorem itemPairs_name_name_ok_iff (fx : RFlags) (l r : Side) (k s : String) (ps : List (Int × Int)) :
+    itemPairs fx l r (.name k, .name s) = .ok ps ↔
+      r.comp = false ∧ 0 < l.outNames.count k ∧ r.inNames.count s = l.outNames.count k ∧
+        ps = (portModes l.outNames k).zip (portModes r.inNames s) := by
+  rw [itemPairs_ok_iff fx l r _ _ ps (by rintro a b ⟨h, -⟩; cases h)]
+  simp only [leftIdx, rightIdx]
+  constructor
+  · rintro (⟨h, -⟩ | ⟨lidx, ridx, h1, h2, h3, rfl⟩)
+    · cases hp : resolvePort l.outNames k <;> rw [hp] at h <;> cases h
+    · cases hp : resolvePort l.outNames k with
+      | none => rw [hp] at h1; cases h1
+      | some x =>
+        rw [hp] at h1; cases h1
+        obtain ⟨hc, rfl⟩ := (resolvePort_some_iff _ _ _).1 hp
+        cases hcomp : r.comp with
+        | true => rw [hcomp] at h2; simp at h2
+        | false =>
+          rw [hcomp] at h2
+          simp only [Bool.false_eq_true, if_false] at h2
+          cases hq : resolvePort r.inNames s with
+          | none => rw [hq] at h2; cases h2
+          | some y =>
+            rw [hq] at h2; cases h2
+            obtain ⟨hc', rfl⟩ := (resolvePort_some_iff _ _ _).1 hq
+            rw [portModes_length, portModes_length] at h3
+            exact ⟨rfl, hc, h3.symm, rfl⟩
+  · rintro ⟨hcomp, hc, hl, rfl⟩
+    right
+    have hp : resolvePort l.outNames k = some (portModes l.outNames k) :=
+      (resolvePort_some_iff _ _ _).2 ⟨hc, rfl⟩
+    have hq : resolvePort r.inNames s = some (portModes r.inNames s) :=
+      (resolvePort_some_iff _ _ _).2 ⟨by omega, rfl⟩
+    refine ⟨_, portModes r.inNames s, by rw [hp], ?_, by rw [portModes_length, portModes_length, hl], rfl⟩
+    rw [hcomp]; simp only [Bool.false_eq_true, if_false]; rw [hq]
+
+/-- `int: [modes]` / `int: 'input port'` **as found** (`skip = false`): silently ignored — the item stands for
+nothing, whatever it names -/
+theorem itemPairs_int_skipped (fx : RFlags) (l r : Side) (k : Int) (v : MVal)
+    (hv : ∀ b, v ≠ .int b) (hs : fx.skip = false) :
+    itemPairs fx l r (.int k, v) = .ok [] := by
+  rw [itemPairs_ok_iff fx l r _ _ [] (by rintro a b ⟨-, h⟩; exact hv b h)]
+  left
+  cases v with
+  | int b => exact absurd rfl (hv b)
+  | name s => simp [leftIdx, hs]
+  | list vs => simp [leftIdx, hs]
+
+/-- `int: [modes]` repaired: the int key is a one-mode port; accepted iff the list has one entry -/
+theorem itemPairs_int_list_ok_iff (fx : RFlags) (l r : Side) (k : Int) (vs : List Int)
+    (ps : List (Int × Int)) (hs : fx.skip = true) :
+    itemPairs fx l r (.int k, .list vs) = .ok ps ↔ ∃ v, vs = [v] ∧ ps = [(k, v)] := by
+  rw [itemPairs_ok_iff fx l r _ _ ps (by rintro a b ⟨-, h⟩; cases h)]
+  simp only [leftIdx, rightIdx, hs, if_true]
+  constructor
+  · rintro (⟨h, -⟩ | ⟨lidx, ridx, h1, h2, h3, rfl⟩)
+    · cases h
+    · cases h1; cases h2
+      obtain ⟨v, rfl⟩ := List.length_eq_one_iff.1 h3.symm
+      exact ⟨v, rfl, rfl⟩
+  · rintro ⟨v, rfl, rfl⟩
+    exact Or.inr ⟨[k], [v], rfl, rfl, rfl, rfl⟩
+
+/-- `int: 'input port'` repaired: accepted iff the right-hand object is a processor and the port has exactly
+one mode -/
+theorem itemPairs_int_name_ok_iff (fx : RFlags) (l r : Side) (k : Int) (s : String)
+    (ps : List (Int × Int)) (hs : fx.skip = true) :
+    itemPairs fx l r (.int k, .name s) = .ok ps ↔
+      r.comp = false ∧ r.inNames.count s = 1 ∧ ps = [(k, Int.ofNat (r.inNames.idxOf s))] := by
+  rw [itemPairs_ok_iff fx l r _ _ ps (by rintro a b ⟨-, h⟩; cases h)]
+  simp only [leftIdx, rightIdx, hs, if_true]
+  constructor
+  · rintro (⟨h, -⟩ | ⟨lidx, ridx, h1, h2, h3, rfl⟩)
+    · cases h
+    · cases h1
+      cases hcomp : r.comp with
+      | true => rw [hcomp] at h2; simp at h2
+      | false =>
+        rw [hcomp] at h2
+        simp only [Bool.false_eq_true, if_false] at h2
+        cases hq : resolvePort r.inNames s with
+        | none => rw [hq] at h2; cases h2
+        | some y =>
+          rw [hq] at h2; cases h2
+          obtain ⟨hc', rfl⟩ := (resolvePort_some_iff _ _ _).1 hq
+          rw [portModes_length] at h3
+          have h3' : r.inNames.count s = 1 := by simpa using h3.symm
+          refine ⟨rfl, h3', ?_⟩
+          simp [portModes, h3']
+  · rintro ⟨hcomp, hc, rfl⟩
+    right
+    have hq : resolvePort r.inNames s = some (portModes r.inNames s) :=
+      (resolvePort_some_iff _ _ _).2 ⟨by omega, rfl⟩
+    refine ⟨[k], portModes r.inNames s, rfl, ?_, by simp [portModes_length, hc], ?_⟩
+    · rw [hcomp]; simp only [Bool.false_eq_true, if_false]; rw [hq]
+    · simp [portModes, hc]
+
+/-- the only errors an item can raise: `InvalidMappingException` (unknown port, imbalanced sizes), or the
+`AssertionError` of `_resolve_port_right` when the right-hand object is a bare component -/
+theorem itemPairs_error_class (fx : RFlags) (l r : Side) (it : MKey × MVal) (e : Err)
+    (h : itemPairs fx l r it = .error e) : e = .invalid ∨ (e = .assertion ∧ r.comp = true) := by
+  obtain ⟨k, v⟩ := it
+  have hr : ∀ n v' x, rightIdx fx r n v' = .error x → x = .invalid ∨ (x = .assertion ∧ r.comp = true) := by
+    intro n v' x hx
+    cases v' with
+    | int b =>
+      simp only [rightIdx] at hx
+      split_ifs at hx with h1 h2 h3
+      · cases hx; exact Or.inl rfl
+      · cases hx; exact Or.inr ⟨rfl, h3⟩
+      · cases hx; exact Or.inl rfl
+    | list vs => cases hx
+    | name s =>
+      simp only [rightIdx] at hx
+      split_ifs at hx with h1
+      · cases hx; exact Or.inr ⟨rfl, h1⟩
+      · cases hq : resolvePort r.inNames s <;> rw [hq] at hx <;> cases hx
+        exact Or.inl rfl
+  have hl : ∀ x, leftIdx fx l k v = .error x → x = .invalid := by
+    intro x hx
+    cases k with
+    | int a => cases v <;> cases hx
+    | name a =>
+      simp only [leftIdx] at hx
+      cases hq : resolvePort l.outNames a <;> rw [hq] at hx <;> cases hx
+      rfl
+  by_cases hkv : ∃ a b, k = .int a ∧ v = .int b
+  · obtain ⟨a, b, rfl, rfl⟩ := hkv
+    cases h
+  · have hkv' : ∀ a b, ¬ (k = .int a ∧ v = .int b) := fun a b hab => hkv ⟨a, b, hab⟩
+    cases hli : leftIdx fx l k v with
+    | error x =>
+      have : itemPairs fx l r (k, v) = .error x := by
+        cases k with
+        | int a =>
+          cases v with
+          | int b => exact absurd ⟨rfl, rfl⟩ (hkv' a b)
+          | name s => simp only [itemPairs, bind, Except.bind, hli]
+          | list vs => simp only [itemPairs, bind, Except.bind, hli]
+        | name a => simp only [itemPairs, bind, Except.bind, hli]
+      rw [this] at h; cases h
+      exact Or.inl (hl _ hli)
+    | ok o =>
+      cases o with
+      | none =>
+        have := (itemPairs_ok_iff fx l r k v [] hkv').2 (Or.inl ⟨hli, rfl⟩)
+        rw [this] at h; cases h
+      | some lidx =>
+        cases hri : rightIdx fx r lidx.length v with
+        | error x =>
+          have : itemPairs fx l r (k, v) = .error x := by
+            cases k with
+            | int a =>
+              cases v with
+              | int b => exact absurd ⟨rfl, rfl⟩ (hkv' a b)
+              | name s => simp only [itemPairs, bind, Except.bind, hli, hri]
+              | list vs => simp only [itemPairs, bind, Except.bind, hli, hri]
+            | name a => simp only [itemPairs, bind, Except.bind, hli, hri]
+          rw [this] at h; cases h
+          exact hr _ _ _ hri
+        | ok ridx =>
+          by_cases hlen : lidx.length = ridx.length
+          · have := (itemPairs_ok_iff fx l r k v _ hkv').2 (Or.inr ⟨lidx, ridx, hli, hri, hlen, rfl⟩)
+            rw [this] at h; cases h
+          · have : itemPairs fx l r (k, v) = .error .invalid := by
+              cases k with
+              | int a =>
+                cases v with
+                | int b => exact absurd ⟨rfl, rfl⟩ (hkv' a b)
+                | name s => simp only [itemPairs, bind, Except.bind, hli, hri, ne_eq, hlen,
+                    not_false_eq_true, if_true]
+                | list vs => simp only [itemPairs, bind, Except.bind, hli, hri, ne_eq, hlen,
+                    not_false_eq_true, if_true]
+              | name a => simp only [itemPairs, bind, Except.bind, hli, hri, ne_eq, hlen,
+                  not_false_eq_true, if_true]
+            rw [this] at h; cases h
+            exact Or.inl rfl
+
+/-- all the items: accepted iff every item is, and the pairs are concatenated in order -/
+theorem allPairs_ok_iff (fx : RFlags) (l r : Side) (items : List (MKey × MVal)) (ps : List (Int × Int)) :
+    allPairs fx l r items = .ok ps ↔
+      ∃ pss, List.Forall₂ (fun it q => itemPairs fx l r it = .ok q) items pss ∧ ps = pss.flatten := by
+  induction items generalizing ps with
+  | nil =>
+    rw [allPairs_nil]
+    constructor
+    · intro h; cases h; exact ⟨[], List.Forall₂.nil, rfl⟩
+    · rintro ⟨pss, h, rfl⟩; cases h; rfl
+  | cons it rest ih =>
+    rw [allPairs_cons]
+    constructor
+    · intro h
+      cases hi : itemPairs fx l r it with
+      | error e => rw [hi] at h; cases h
+      | ok q =>
+        rw [hi] at h
+        cases hr : allPairs fx l r rest with
+        | error e => rw [hr] at h; cases h
+        | ok qs =>
+          rw [hr] at h; cases h
+          obtain ⟨pss, hf, rfl⟩ := (ih qs).1 hr
+          exact ⟨q :: pss, List.Forall₂.cons hi hf, by simp⟩
+    · rintro ⟨pss, hf, rfl⟩
+      cases hf with
+      | cons hi hf' =>
+        rename_i q pss'
+        rw [hi, (ih _).2 ⟨pss', hf', rfl⟩]
+        simp
+
+/-- … and refused with the error of the first item that is refused -/
+theorem allPairs_error_iff (fx : RFlags) (l r : Side) (items : List (MKey × MVal)) (e : Err) :
+    allPairs fx l r items = .error e ↔
+      ∃ pre it post, items = pre ++ it :: post ∧ (∀ x ∈ pre, ∃ q, itemPairs fx l r x = .ok q) ∧
+        itemPairs fx l r it = .error e := by
+  induction items with
+  | nil =>
+    rw [allPairs_nil]
+    constructor
+    · intro h; cases h
+    · rintro ⟨pre, it, post, h, -⟩; simp at h
+  | cons a rest ih =>
+    rw [allPairs_cons]
+    cases hi : itemPairs fx l r a with
+    | error x =>
+      constructor
+      · intro h; cases h; exact ⟨[], a, rest, rfl, by simp, hi⟩
+      · rintro ⟨pre, it, post, h, hpre, hit⟩
+        cases pre with
+        | nil => simp only [List.nil_append, List.cons.injEq] at h; rw [← h.1, hi] at hit; cases hit; rfl
+        | cons b pre' =>
+          simp only [List.cons_append, List.cons.injEq] at h
+          obtain ⟨q, hq⟩ := hpre b (by simp)
+          rw [← h.1, hi] at hq; cases hq
+    | ok q =>
+      constructor
+      · intro h
+        cases hr : allPairs fx l r rest with
+        | ok qs => rw [hr] at h; cases h
+        | error x =>
+          rw [hr] at h; cases h
+          obtain ⟨pre, it, post, h1, h2, h3⟩ := ih.1 hr
+          refine ⟨a :: pre, it, post, by rw [h1]; rfl, ?_, h3⟩
+          intro x hx
+          rcases List.mem_cons.1 hx with rfl | hx
+          · exact ⟨q, hi⟩
+          · exact h2 x hx
+      · rintro ⟨pre, it, post, h, hpre, hit⟩
+        cases pre with
+        | nil => simp only [List.nil_append, List.cons.injEq] at h; rw [← h.1, hi] at hit; cases hit
+        | cons b pre' =>
+          simp only [List.cons_append, List.cons.injEq] at h
+          have := ih.2 ⟨pre', it, post, h.2, fun x hx => hpre x (by simp [hx]), hit⟩
+          rw [this]
+
+/-- **dictionary mapping, acceptance**: `add({…}, obj)` (with `m ≥ 1` modes to connect) is accepted iff the
+types are admissible, every item is accepted, and the dictionary `d` the stores build from the concatenated
+pairs has `m` entries, only connectible left modes and pairwise distinct right-hand modes; `d` is then the
+resolved mapping. -/
+theorem resolve_dict_ok_iff (fx : RFlags) (l r : Side) (items : List (MKey × MVal)) (d : Dict)
+    (hm : 0 < r.m) :
+    resolve fx l r (.ofDict items) = .ok d ↔
+      typeChecks r items = true ∧ ∃ ps, allPairs fx l r items = .ok ps ∧ d = dictOf ps ∧
+        d.length = r.m ∧ (∀ p ∈ d, connectible l.cs l.conn p.1 = true) ∧ d.vals.Nodup := by
+  rw [resolve_dict_eq]
+  cases ht : typeChecks r items with
+  | false => simp
+  | true =>
+    simp only [Bool.true_eq_false, if_false, true_and]
+    cases ha : allPairs fx l r items with
+    | error e => simp
+    | ok ps =>
+      simp only [Except.ok.injEq, exists_eq_left']
+      constructor
+      · intro h
+        split at h
+        · rename_i u hc
+          cases h
+          obtain ⟨-, h1, h2, h3⟩ := checkConsistency_ok _ _ _ _ hc
+          exact ⟨rfl, h1, h3, h2⟩
+        · cases h
+      · rintro ⟨rfl, h1, h2, h3⟩
+        have hne : dictOf ps ≠ [] := by
+          intro h0; rw [h0] at h1; simp at h1; omega
+        rw [(resolve_ok_iff _ _ _ _ hne).2 ⟨h1, h2, h3⟩]
+
+/-- when no left mode is named twice the resolved mapping is exactly the concatenation of the pairs -/
+theorem resolve_dict_pairs (fx : RFlags) (l r : Side) (items : List (MKey × MVal)) (d : Dict)
+    (ps : List (Int × Int)) (h : resolve fx l r (.ofDict items) = .ok d)
+    (hp : allPairs fx l r items = .ok ps) (hn : (ps.map (·.1)).Nodup) : d = ps := by
+  rw [resolve_dict_eq] at h
+  split_ifs at h
+  rw [hp] at h
+  simp only [] at h
+  split at h
+  · cases h; exact dictOf_of_nodup ps hn
+  · cases h
+
+/-- **dictionary mapping, refusal**: the error is the type-check assertion, or the error of the first refused
+item (`itemPairs_error_class`: `InvalidMappingException`, or `AssertionError` for a port name on a bare
+component), or the verdict of `_check_consistency` on the dictionary built from the pairs (whose classes are
+`resolve_invalid_iff` / `resolve_unavailable_iff`). -/
+theorem resolve_dict_error_iff (fx : RFlags) (l r : Side) (items : List (MKey × MVal)) (e : Err) :
+    resolve fx l r (.ofDict items) = .error e ↔
+      (typeChecks r items = false ∧ e = .assertion) ∨
+      (typeChecks r items = true ∧ allPairs fx l r items = .error e) ∨
+      (typeChecks r items = true ∧ ∃ ps, allPairs fx l r items = .ok ps ∧
+        checkConsistency l.cs l.conn r.m (dictOf ps) = .error e) := by
+  rw [resolve_dict_eq]
+  cases ht : typeChecks r items with
+  | false => simp [eq_comm]
+  | true =>
+    simp only [Bool.true_eq_false, if_false, false_and, true_and, false_or]
+    cases ha : allPairs fx l r items with
+    | error x => simp
+    | ok ps =>
+      simp only [reduceCtorEq, false_or, Except.ok.injEq, exists_eq_left']
+      cases checkConsistency l.cs l.conn r.m (dictOf ps) <;> simp
+
+/-- what the stores make of pairs that name a left mode more than once: the LAST value given to a left mode
+wins (a Python dictionary) -/
+theorem dictOf_mem_iff (ps : List (Int × Int)) (k v : Int) :
+    (k, v) ∈ dictOf ps ↔ lastVal ps k = some v := by
+  have := dictSetAll_mem_iff ps [] k v
+  simpa [dictOf] using this
+
+/-- **`generate_permutation` refuses exactly the dictionaries that leave the modes of interest**: for a mapping
+`resolve` accepted onto a well-formed right-hand object, `generate_permutation` (after the heralded modes were
+appended) returns iff every right-hand value is a mode of interest of the added object — a value on a herald
+or out of range is what PERM's assertion catches. -/
+theorem genPerm_ok_iff_vals_moi (fixed : RFlags) (l r : Side) (raw : RawMap) (d : Dict) (mp : NMap)
+    (h : resolve fixed l r raw = .ok d) (hm : toNMap d = some mp) (hwf : RightWF r) :
+    (∃ σ, genPerm (permInput l r mp) = .ok σ) ↔ ∀ v ∈ mp.vals, v ∈ orderedRModes r := by
+  constructor
+  · rintro ⟨σ, hσ⟩
+    exact vals_moi_of_genPerm_ok fixed l r raw d mp h hm hwf σ hσ
+  · intro hv
+    exact genPerm_ok_of_accepted fixed l r raw d mp h hm hwf hv
+
+/-! # Ports of the added processor: which are re-attached, where, and the port names after the add
+
+`_compose_experiment` walks the output ports of the added processor (heralds go through `_add_herald`, which
+registers them as input AND output ports; another port is re-attached only if the completed mapping sends its
+modes onto consecutive modes in order and those modes are free), then its input ports.  `OutOrigin` /
+`InOrigin` (Lemmas/C10Ext) say where a new port comes from; the theorems below read them. -/
+
+/-- reading `OutOrigin` for the repaired port transfer: a new output port comes from a port `p` of the added
+processor and sits on the left mode the completed mapping wires to `p`'s first mode; a herald becomes a one-mode
+port named by `heraldName` with the same expected value, any other port keeps size and name and sits, mode by
+mode and in order, on the left modes wired to its modes -/
+theorem outOrigin_wired (fl : NMap) (ports : List Port) (q : Port) (h : OutOrigin true fl ports q) :
+    ∃ p ∈ ports, (q.start, p.start) ∈ fl ∧ q.herald = p.herald ∧ q.expected = p.expected ∧
+      (p.herald = true → q.size = 1 ∧ q.name = heraldName p) ∧
+      (p.herald = false → q.size = p.size ∧ q.name = p.name ∧
+        ∀ j, j < p.size → (q.start + j, p.start + j) ∈ fl) := by
+  obtain ⟨p, hp, k, hk, hcase⟩ := h
+  refine ⟨p, hp, ?_⟩
+  rcases hcase with ⟨hh, rfl⟩ | ⟨hh, rfl, hc⟩
+  · exact ⟨keyOfVal_mem hk, rfl, rfl, fun _ => ⟨rfl, rfl⟩, fun hf => by rw [hh] at hf; cases hf⟩
+  · refine ⟨keyOfVal_mem hk, rfl, rfl, ?_, ?_⟩
+    · intro ht; rw [hh] at ht; cases ht
+    · intro _
+      refine ⟨rfl, rfl, ?_⟩
+      intro j hj
+      exact keyOfVal_mem ((consecutive_iff fl p k).1 (hc rfl) j hj)
+
+theorem inOrigin_wired (fl : NMap) (ports : List Port) (q : Port) (h : InOrigin true fl ports q) :
+    ∃ p ∈ ports, q.size = p.size ∧ q.name = p.name ∧ q.herald = p.herald ∧ q.expected = p.expected ∧
+      (q.start, p.start) ∈ fl ∧ ∀ j, j < p.size → (q.start + j, p.start + j) ∈ fl := by
+  obtain ⟨p, hp, k, hk, rfl, hc⟩ := h
+  refine ⟨p, hp, rfl, rfl, rfl, rfl, keyOfVal_mem hk, ?_⟩
+  intro j hj
+  exact keyOfVal_mem ((consecutive_iff fl p k).1 (hc rfl) j hj)
+
+/-- **which ports are re-attached and where** (added processor, any mapping, any flags): the output ports are
+the old ones (minus those under the mapped modes when `keep_port` is off) followed by new ports, each with an
+`OutOrigin` in the output ports of the added processor w.r.t. the completed mapping `res.full`; the input ports
+are the old ones, then the *herald* ports just created (a herald is an input and an output port), then new
+ports with an `InOrigin` in the input ports of the added processor. -/
+theorem ports_reattached (f1 : RFlags) (f2 f3 : Bool) (l r : Side) (raw : RawMap) (keep : Bool)
+    (res : Result) (hr : r.comp = false) (h : compose f1 f2 f3 l r raw keep = .ok res) :
+    ∃ newOut newIn,
+      res.outp = removePorts keep l.outp res.map.keys ++ newOut ∧
+      res.inp = l.inp ++ newOut.filter (·.herald) ++ newIn ∧
+      (∀ q ∈ newOut, OutOrigin f3 res.full r.outp q) ∧
+      (∀ q ∈ newIn, InOrigin f3 res.full r.inp q) := by
+  obtain ⟨d, mp, perm, inp1, outp1, inp2, -, hmp, -, hout, hin, hmap, hfull, -, -, -, -, -, -, -, hi, ho⟩ :=
+    compose_proc_inv f1 f2 f3 l r raw keep res hr h
+  obtain ⟨newOut, e1, e2, o1⟩ := transferOut_shape f3 _ _ _ _ _ _ hout
+  obtain ⟨newIn, e3, o2⟩ := transferIn_shape f3 _ _ _ _ hin
+  refine ⟨newOut, newIn, ?_, ?_, ?_, ?_⟩
+  · rw [ho, e1, hmap, toNMap_keys d mp hmp]
+  · rw [hi, e3, e2]
+  · rw [hfull]; exact o1
+  · rw [hfull]; exact o2
+
+/-- **what is dropped**: a non-herald output port of the added processor (resp. any of its input ports) whose
+modes the completed mapping sends onto consecutive modes `k, k+1, …` in order is in the result at `k`, unless one
+of those modes is under another port of the result — the two documented reasons are the only ones -/
+theorem ports_dropped_only_if (f1 : RFlags) (f2 f3 : Bool) (l r : Side) (raw : RawMap) (keep : Bool)
+    (res : Result) (hr : r.comp = false) (h : compose f1 f2 f3 l r raw keep = .ok res) :
+    (∀ p ∈ r.outp, p.herald = false → ∀ k, keyOfVal res.full p.start = some k →
+      (f3 = true → consecutive res.full p k = true) →
+      { p with start := k } ∈ res.outp ∨ modesFree res.outp k p.size = false) ∧
+    (∀ p ∈ r.inp, ∀ k, keyOfVal res.full p.start = some k →
+      (f3 = true → consecutive res.full p k = true) →
+      { p with start := k } ∈ res.inp ∨ modesFree res.inp k p.size = false) := by
+  obtain ⟨d, mp, perm, inp1, outp1, inp2, -, -, -, hout, hin, -, hfull, -, -, -, -, -, -, -, hi, ho⟩ :=
+    compose_proc_inv f1 f2 f3 l r raw keep res hr h
+  rw [hfull, hi, ho]
+  exact ⟨transferOut_complete f3 _ _ _ _ _ _ hout, transferIn_complete f3 _ _ _ _ hin⟩
+
+/-- **no overlap**: if no two ports of the left processor overlap (input side, output side), the same holds
+after any accepted `add` -/
+theorem ports_stay_disjoint (f1 : RFlags) (f2 f3 : Bool) (l r : Side) (raw : RawMap) (keep : Bool)
+    (res : Result) (hi : PortsDisjoint l.inp) (ho : PortsDisjoint l.outp)
+    (h : compose f1 f2 f3 l r raw keep = .ok res) : PortsDisjoint res.inp ∧ PortsDisjoint res.outp := by
+  cases hr : r.comp with
+  | true =>
+    obtain ⟨d, mp, perm, -, -, -, -, -, -, -, -, -, -, -, -, hinp, houtp, -⟩ :=
+      compose_comp_inv f1 f2 f3 l r raw keep res hr h
+    rw [hinp, houtp]
+    exact ⟨hi, removePorts_disjoint _ _ _ ho⟩
+  | false =>
+    obtain ⟨d, mp, perm, inp1, outp1, inp2, -, -, -, hout, hin, -, -, -, -, -, -, -, -, -, hi', ho'⟩ :=
+      compose_proc_inv f1 f2 f3 l r raw keep res hr h
+    obtain ⟨d1, d2⟩ := transferOut_disjoint f3 _ _ _ _ _ _ hout hi (removePorts_disjoint _ _ _ ho)
+    rw [hi', ho']
+    exact ⟨transferIn_disjoint f3 _ _ _ _ hin d1, d2⟩
+
+/-- **port names** (`in_port_names`, `out_port_names`), for every port list: the property raises iff a port
+reaches past the last mode; otherwise mode `i` carries the name of the last port sitting on it, and on
+non-overlapping ports that is the name of the one port sitting on it (`""` when there is none) -/
+theorem port_names_spec (cs : Nat) (ports : List Port) :
+    (portNames cs ports = none ↔ ∃ p ∈ ports, cs < p.start + p.size) ∧
+    (∀ names, portNames cs ports = some names →
+      names.length = cs ∧ ∀ i, i < cs → names[i]? = some (nameAt ports i "") ∧
+        (PortsDisjoint ports → names[i]? = some (((portAt ports i).map (·.name)).getD ""))) := by
+  rw [portNames_eq]
+  constructor
+  · split_ifs with hfit
+    · simp only [reduceCtorEq, false_iff, not_exists, not_and, not_lt]
+      exact hfit
+    · simp only [true_iff]
+      by_contra hc
+      apply hfit
+      intro p hp
+      by_contra hlt
+      exact hc ⟨p, hp, by omega⟩
+  · intro names hn
+    split_ifs at hn
+    cases hn
+    refine ⟨by simp, fun i hi => ?_⟩
+    have e : ((List.range cs).map fun i => nameAt ports i "")[i]? = some (nameAt ports i "") := by
+      rw [List.getElem?_map, List.getElem?_range hi]; rfl
+    exact ⟨e, fun hd => by rw [e, nameAt_of_disjoint ports hd]⟩
+
+/-- **the port names after the add exist** (repaired port transfer): if every port of the left processor lies
+inside its circuit, every port of the result lies inside the enlarged circuit, so `in_port_names` /
+`out_port_names` do not raise — with `port_names_spec` and `ports_stay_disjoint`, mode `i` then carries the
+name of the one port of `ports_reattached` sitting on it. -/
+theorem port_names_after_add (f1 : RFlags) (f2 : Bool) (l r : Side) (raw : RawMap) (keep : Bool)
+    (res : Result)
+    (hli : ∀ p ∈ l.inp, p.start + p.size ≤ l.cs) (hlo : ∀ p ∈ l.outp, p.start + p.size ≤ l.cs)
+    (h : compose f1 f2 true l r raw keep = .ok res) :
+    (∃ names, portNames res.cs res.inp = some names) ∧ (∃ names, portNames res.cs res.outp = some names) := by
+  have key : (∀ p ∈ res.inp, p.start + p.size ≤ res.cs) ∧ (∀ p ∈ res.outp, p.start + p.size ≤ res.cs) :=
+    result_ports_inside f1 f2 l r raw keep res hli hlo h
+  constructor
+  · rw [portNames_eq, if_pos key.1]; exact ⟨_, rfl⟩
+  · rw [portNames_eq, if_pos key.2]; exact ⟨_, rfl⟩
+
 /-! ## the permutation `compose` stores wires the resolved mapping and the herald modes -/
 
 /-- wiring read off the value `generate_permutation` returned -/
@@ -867,7 +1473,7 @@ theorem genPerm_ok_wires (mp : NMap) (hk : mp.keys.Nodup) (perm : Option (List N
 `k ↦ v` of the resolved mapping — and, for an added processor, for every herald pair
 `circuit_size + i ↦ positionᵢ` — the PERM placed at `res.first` sends left mode `k` to input `v` of the
 added object; when no PERM was needed, `v = k − res.first` already. -/
-theorem compose_wires (f1 f2 f3 : Bool) (l r : Side) (raw : RawMap) (keep : Bool) (res : Result)
+theorem compose_wires (f1 : RFlags) (f2 f3 : Bool) (l r : Side) (raw : RawMap) (keep : Bool) (res : Result)
     (h : compose f1 f2 f3 l r raw keep = .ok res) (k v : Nat)
     (hkv : (k, v) ∈ res.map ∨ (r.comp = false ∧ ∃ i, ∃ hi : i < r.heralds.length,
       k = l.cs + i ∧ v = (r.heralds[i]).1)) :
@@ -892,6 +1498,511 @@ theorem compose_wires (f1 f2 f3 : Bool) (l r : Side) (raw : RawMap) (keep : Bool
     · exact (heralds_appended_partial l.cs mp _).2.1 _ (hmap ▸ hkv)
     · have := addHeraldedModes_mem l.cs mp (r.heralds.map (·.1)) i (by simpa using hi)
       simpa only [List.getElem_map] using this
+
+/-! # The post-selection of the result (independence check + merge) -/
+
+/-- **merged post-selection**: after an accepted add of a processor (repaired renaming) the post-selection of
+the result holds on a state `s` of the composed processor iff the left post-selection holds on `s` and the
+post-selection of the added processor holds on `s` read back through the wiring (`pullMode`; `pullMode_wired`
+below says it is the wiring).  A missing post-selection counts as `true`. -/
+theorem postselect_merged (f1 : RFlags) (f3 : Bool) (l r : Side) (raw : RawMap) (keep : Bool)
+    (res : Result) (hr : r.comp = false) (h : compose f1 true f3 l r raw keep = .ok res)
+    (s : Nat → Nat) :
+    evalO res.ps s = (evalO l.ps s && evalO r.ps (fun v => s (pullMode res.inv res.first v))) := by
+  obtain ⟨d, -, -, hps⟩ := compose_proc_ps_inv f1 true f3 l r raw keep res hr h
+  have hq : ∀ q : PS, (renamePS true res.inv res.first q).eval s =
+      q.eval (fun v => s (pullMode res.inv res.first v)) := by
+    intro q
+    cases hi : res.inv with
+    | none => rw [postselect_renamed_noperm]; rfl
+    | some τ => rw [postselect_renamed]; rfl
+  cases hrp : r.ps with
+  | none =>
+    rw [hrp] at hps
+    rw [← Except.ok.inj hps]
+    simp [evalO]
+  | some q =>
+    rw [hrp] at hps
+    cases hlp : l.ps with
+    | none =>
+      rw [hlp] at hps
+      rw [← Except.ok.inj hps]
+      simp [evalO, hq]
+    | some p =>
+      rw [hlp] at hps
+      simp only at hps
+      split_ifs at hps
+      rw [← Except.ok.inj hps]
+      simp [evalO, PS.eval, hq]
+
+/-- a bare component carries no post-selection: the left one is kept as it is -/
+theorem postselect_unchanged_component (f1 : RFlags) (f2 f3 : Bool) (l r : Side) (raw : RawMap)
+    (keep : Bool) (res : Result) (hr : r.comp = true)
+    (h : compose f1 f2 f3 l r raw keep = .ok res) : res.ps = l.ps := by
+  obtain ⟨d, mp, perm, -, -, -, -, -, -, -, -, -, -, -, -, -, -, hps⟩ :=
+    compose_comp_inv f1 f2 f3 l r raw keep res hr h
+  exact hps
+
+/-- **the read-back is the wiring**: for every pair `k ↦ v` of the mapping (herald pairs included) the mode
+the carried-over post-selection reads for right-hand mode `v` is left mode `k` — no well-formedness needed -/
+theorem pullMode_wired (f1 : RFlags) (f2 f3 : Bool) (l r : Side) (raw : RawMap) (keep : Bool)
+    (res : Result) (hr : r.comp = false) (h : compose f1 f2 f3 l r raw keep = .ok res) {k v : Nat}
+    (hkv : (k, v) ∈ permInput l r res.map) : pullMode res.inv res.first v = k := by
+  obtain ⟨d, mp, perm, inp1, outp1, inp2, hd, hmp, hperm, -, -, hmap, -, hfirst, -, hinv, -⟩ :=
+    compose_proc_inv f1 f2 f3 l r raw keep res hr h
+  obtain ⟨hne, -, hk, -, hlt, -⟩ := resolved_nmap_facts f1 l r raw d mp hd hmp
+  have hpi : permInput l r res.map = addHeraldedModes l.cs mp (r.heralds.map (·.1)) := by
+    simp [permInput, hr, hmap]
+  rw [hpi] at hkv
+  rw [hinv, hfirst]
+  have hkH := addHeraldedModes_keys_nodup l.cs mp (r.heralds.map (·.1)) hk hlt
+  obtain ⟨hvn, hvb⟩ := legal_of_genPerm_ok _ hkH perm hperm
+  have hge := minN_le (mem_keys_of_mem hkv)
+  rcases genPerm_ok_cases _ perm hperm with ⟨rfl, -⟩ | rfl
+  · have := (genPerm_ok_wires _ hkH none hperm hkv).2 rfl
+    simp only [Option.map_none, pullMode]
+    omega
+  · simp only [Option.map_some, pullMode]
+    exact postselect_renamed_mode _ (List.ne_nil_of_mem hkv) hkH hvn hvb hkv
+
+/-- **independence**: an add is only accepted when no condition of the left post-selection mentions a left
+mode that the carried-over post-selection reads, and every condition of the left post-selection contains all
+the mapped modes or none (`_validate_postselect_composition`) -/
+theorem merged_independent (f1 : RFlags) (f3 : Bool) (l r : Side) (raw : RawMap) (keep : Bool)
+    (res : Result) (hr : r.comp = false) (h : compose f1 true f3 l r raw keep = .ok res)
+    (p q : PS) (hl : l.ps = some p) (hq : r.ps = some q) :
+    (∀ m ∈ p.modes, m ∉ q.modes.map (pullMode res.inv res.first)) ∧
+    (∀ c ∈ p.conds, (∀ k ∈ res.map.keys, k ∈ c) ∨ (∀ k ∈ res.map.keys, k ∉ c)) := by
+  obtain ⟨d, hd, hval, hps⟩ := compose_proc_ps_inv f1 true f3 l r raw keep res hr h
+  obtain ⟨d', mp, perm, -, -, -, hd', hmp, -, -, -, hmap, -⟩ :=
+    compose_proc_inv f1 true f3 l r raw keep res hr h
+  rw [hd] at hd'; cases hd'
+  constructor
+  · rw [hq, hl] at hps
+    simp only at hps
+    split_ifs at hps with hi
+    rw [← renamePS_modes]
+    exact (independent_iff _ _).1 hi
+  · rw [hmap, toNMap_keys d mp hmp]
+    simp only [validatePS, hl] at hval
+    split_ifs at hval with hc
+    exact (canCompose_iff p _).1 hc
+
+/-- the errors `resolve` can raise: never `RuntimeError` -/
+theorem resolve_error_classes (fx : RFlags) (l r : Side) (raw : RawMap) (e : Err)
+    (h : resolve fx l r raw = .error e) : e ≠ .runtime := by
+  have hcc : ∀ n d x, checkConsistency l.cs l.conn n d = .error x → x ≠ .runtime := by
+    intro n d x hx
+    unfold checkConsistency at hx
+    split_ifs at hx <;> cases hx <;> decide
+  cases raw with
+  | ofInt b =>
+    rw [resolve_int_eq] at h
+    split at h
+    · cases h
+    · rename_i e' hc; cases h; exact hcc _ _ _ hc
+  | ofList ks =>
+    rw [resolve_list_eq] at h
+    split_ifs at h
+    · cases h; decide
+    · split at h
+      · cases h
+      · rename_i e' hc; cases h; exact hcc _ _ _ hc
+  | ofDict items =>
+    rcases (resolve_dict_error_iff fx l r items e).1 h with ⟨-, rfl⟩ | ⟨-, ha⟩ | ⟨-, ps, -, hc⟩
+    · decide
+    · obtain ⟨pre, it, post, -, -, hit⟩ := (allPairs_error_iff fx l r items e).1 ha
+      rcases itemPairs_error_class fx l r it e hit with rfl | ⟨rfl, -⟩ <;> decide
+    · exact hcc _ _ _ hc
+
+/-- **the only source of `RuntimeError`** ("Cannot automatically compose experiment's post-selection
+conditions"): the add of a processor ends in it iff every earlier stage succeeded (mapping resolved, left
+post-selection composable, permutation generated, ports transferred), both sides have a post-selection, and the
+left one shares a mode with the carried-over one -/
+theorem compose_runtime_iff (f1 : RFlags) (f2 f3 : Bool) (l r : Side) (raw : RawMap) (keep : Bool) :
+    compose f1 f2 f3 l r raw keep = .error .runtime ↔
+      r.comp = false ∧ ∃ d mp perm st inp2 p q,
+        resolve f1 l r raw = .ok d ∧ validatePS l (d.keys.map Int.toNat) = .ok () ∧
+        toNMap d = some mp ∧ genPerm (addHeraldedModes l.cs mp (r.heralds.map (·.1))) = .ok perm ∧
+        transferOut f3 (filled (addHeraldedModes l.cs mp (r.heralds.map (·.1))))
+          (l.inp, removePorts keep l.outp (d.keys.map Int.toNat)) r.outp = .ok st ∧
+        transferIn f3 (filled (addHeraldedModes l.cs mp (r.heralds.map (·.1)))) st.1 r.inp = .ok inp2 ∧
+        l.ps = some p ∧ r.ps = some q ∧
+        p.independent (renamePS f2 (perm.map invPerm)
+          (minN (addHeraldedModes l.cs mp (r.heralds.map (·.1))).keys) q) = false := by
+  have hgp : ∀ mp x, genPerm mp = .error x → x = .assertion := by
+    intro mp x hx
+    simp only [genPerm] at hx
+    split_ifs at hx
+    cases hx; rfl
+  have hto : ∀ fl st ports x, transferOut f3 fl st ports = .error x → x ≠ .runtime := by
+    intro fl st ports
+    induction ports generalizing st with
+    | nil => intro x hx; obtain ⟨a, b⟩ := st; simp [transferOut] at hx
+    | cons p rest ih =>
+      intro x hx
+      obtain ⟨inp, outp⟩ := st
+      simp only [transferOut] at hx
+      split at hx
+      · cases hx; decide
+      · split_ifs at hx
+        · exact ih _ x hx
+        · cases hx; decide
+        · exact ih _ x hx
+        · exact ih _ x hx
+  have hti : ∀ fl inp ports x, transferIn f3 fl inp ports = .error x → x ≠ .runtime := by
+    intro fl inp ports
+    induction ports generalizing inp with
+    | nil => intro x hx; simp [transferIn] at hx
+    | cons p rest ih =>
+      intro x hx
+      simp only [transferIn] at hx
+      split at hx
+      · cases hx; decide
+      · split_ifs at hx
+        · exact ih _ x hx
+        · exact ih _ x hx
+  constructor
+  · intro h
+    unfold compose at h
+    cases hr : r.comp with
+    | true =>
+      exfalso
+      simp only [bind, Except.bind, pure, Except.pure, throw, throwThe, MonadExceptOf.throw, hr,
+        if_true] at h
+      split at h
+      · rename_i e he; cases h; exact resolve_error_classes f1 l r raw _ he rfl
+      · split at h
+        · rename_i e he
+          cases h
+          simp only [validatePS] at he
+          split at he
+          · split_ifs at he; cases he
+          · cases he
+        · split at h
+          · cases h
+          · split at h
+            · rename_i e he; cases h; have := hgp _ _ he; cases this
+            · cases h
+    | false =>
+      simp only [bind, Except.bind, pure, Except.pure, throw, throwThe, MonadExceptOf.throw, hr,
+        Bool.false_eq_true, if_false] at h
+      split at h
+      · rename_i e he; cases h; exact absurd rfl (resolve_error_classes f1 l r raw _ he)
+      · rename_i d hd
+        split at h
+        · rename_i e he
+          cases h
+          simp only [validatePS] at he
+          split at he
+          · split_ifs at he; cases he
+          · cases he
+        · rename_i u hval
+          split at h
+          · cases h
+          · rename_i mp hmp
+            split at h
+            · rename_i e he; cases h; have := hgp _ _ he; cases this
+            · rename_i perm hperm
+              split at h
+              · rename_i e he; cases h; exact absurd rfl (hto _ _ _ _ he)
+              · rename_i st hst
+                obtain ⟨inp1, outp1⟩ := st
+                simp only at h
+                split at h
+                · rename_i e he; cases h; exact absurd rfl (hti _ _ _ _ he)
+                · rename_i inp2 hin
+                  split at h
+                  · rename_i e he
+                    cases h
+                    cases u
+                    refine ⟨rfl, d, mp, perm, (inp1, outp1), inp2, ?_⟩
+                    cases hrp : r.ps with
+                    | none => rw [hrp] at he; cases he
+                    | some q =>
+                      rw [hrp] at he
+                      cases hlp : l.ps with
+                      | none => rw [hlp] at he; cases he
+                      | some p =>
+                        rw [hlp] at he
+                        simp only at he
+                        split_ifs at he with hi
+                        exact ⟨p, q, hd, hval, hmp, hperm, hst, hin, rfl, rfl, by simpa using hi⟩
+                  · cases h
+  · rintro ⟨hr, d, mp, perm, st, inp2, p, q, hd, hval, hmp, hperm, hst, hin, hlp, hrp, hi⟩
+    obtain ⟨inp1, outp1⟩ := st
+    unfold compose
+    simp only [bind, Except.bind, pure, Except.pure, throw, throwThe, MonadExceptOf.throw, hr,
+      Bool.false_eq_true, if_false, hd, hval, hmp, hperm, hst, hin, hlp, hrp, hi]
+
+/-! # End to end: the composed matrix in terms of the mapping
+
+`compose_wires` (what the stored permutation does to the mapping) glued with `compose_matrix` /
+`compose_matrix_noperm` (what a block built from such a permutation is). -/
+
+/-- **the matrix after `Processor.add(mapping, processor)`, entry by entry, in terms of the mapping**: whatever
+the mapping syntax and the flags, after an accepted add of a well-formed processor the matrix of the result is
+`A * left` where, writing `k ↦ v` for the pairs of `permInput l r res.map` (the resolved mapping plus the herald
+pairs `circuit_size + i ↦ positionᵢ`): `A[ka, kb] = C[va, vb]` for wired `ka ↦ va`, `kb ↦ vb` — light leaving
+left mode `kb` enters input `vb` of the added processor and what it puts on its output `va` returns on mode
+`ka` —, and every row / column of a mode that is not wired is the identity's: untouched modes are unaffected,
+inside the range of the PERM as well as outside. -/
+theorem compose_end_to_end_processor (f1 : RFlags) (f2 f3 : Bool) (l r : Side) (raw : RawMap) (keep : Bool)
+    (res : Result) (hr : r.comp = false) (hwf : RightWF r)
+    (h : compose f1 f2 f3 l r raw keep = .ok res)
+    (C : Matrix (Fin r.cs) (Fin r.cs) R) (left : Matrix (Fin res.cs) (Fin res.cs) R) :
+    ∃ A : Matrix (Fin res.cs) (Fin res.cs) R,
+      composeMat res.cs res.first r.cs res.perm true C left = A * left ∧
+      (∀ (ka kb : Fin res.cs) (va vb : Fin r.cs),
+        (ka.val, va.val) ∈ permInput l r res.map → (kb.val, vb.val) ∈ permInput l r res.map →
+        A ka kb = C va vb) ∧
+      (∀ (i j : Fin res.cs),
+        ((∀ v, (i.val, v) ∉ permInput l r res.map) ∨ (∀ v, (j.val, v) ∉ permInput l r res.map)) →
+        A i j = if i = j then 1 else 0) := by
+  obtain ⟨d, mp, perm, inp1, outp1, inp2, hd, hmp, hperm, -, -, hmap, -, hfirst, hp, -, hcs, -⟩ :=
+    compose_proc_inv f1 f2 f3 l r raw keep res hr h
+  obtain ⟨hne, hlen, hk, -, hlt, -⟩ := resolved_nmap_facts f1 l r raw d mp hd hmp
+  obtain ⟨-, -, hmm⟩ := hwf hr
+  have hpi : permInput l r res.map = addHeraldedModes l.cs mp (r.heralds.map (·.1)) := by
+    simp [permInput, hr, hmap]
+  rw [hpi, hfirst, hp]
+  generalize hmpH : addHeraldedModes l.cs mp (r.heralds.map (·.1)) = mpH at *
+  have hkH : mpH.keys.Nodup := by
+    rw [← hmpH]; exact addHeraldedModes_keys_nodup l.cs mp _ hk hlt
+  have hL : mpH.length = r.cs := by rw [← hmpH]; simp [addHeraldedModes, hlen, hmm]
+  obtain ⟨hvn, hvb⟩ := legal_of_genPerm_ok mpH hkH perm hperm
+  have hvperm : IsPermList r.cs mpH.vals := ⟨by simp [NMap.vals, hL], hvn, by rw [← hL]; exact hvb⟩
+  have hkeysN : ∀ k ∈ mpH.keys, k < res.cs := by
+    intro k hk'
+    rw [← hmpH, addHeraldedModes_keys, List.mem_append] at hk'
+    rcases hk' with hk' | hk'
+    · have := hlt k hk'; omega
+    · obtain ⟨i, hi, rfl⟩ := List.mem_map.1 hk'
+      rw [List.mem_range, List.length_map] at hi
+      omega
+  -- every right-hand mode is wired to some left mode
+  have hsurj : ∀ w, w < r.cs → ∃ k, (k, w) ∈ mpH := by
+    intro w hw
+    have := isPermList_mem hvperm hw
+    obtain ⟨p, hp', e⟩ := List.mem_map.1 this
+    exact ⟨p.1, by rw [← e]; exact hp'⟩
+  have hge : ∀ {k v}, (k, v) ∈ mpH → minN mpH.keys ≤ k := fun hm => minN_le (mem_keys_of_mem hm)
+  rcases genPerm_ok_cases mpH perm hperm with ⟨rfl, hid⟩ | rfl
+  · -- no PERM: the processor is embedded at `first`
+    have hw : ∀ {k v}, (k, v) ∈ mpH → v = k - minN mpH.keys :=
+      fun hm => (genPerm_ok_wires mpH hkH none hperm hm).2 rfl
+    refine ⟨embed res.cs (minN mpH.keys) C, ?_, ?_, ?_⟩
+    · simp [composeMat, composeMatV, permAt, permInvAt]
+    · intro ka kb va vb ha hb
+      have ea := hw ha; have eb := hw hb
+      have ga := hge ha; have gb := hge hb
+      rw [embed_apply_in_gen C ka kb ⟨ga, by have := va.isLt; omega⟩ ⟨gb, by have := vb.isLt; omega⟩]
+      congr 1 <;> exact Fin.ext (by simp only; omega)
+    · intro i j hun
+      apply embed_apply_out
+      have key : ∀ x : Fin res.cs, (∀ v, (x.val, v) ∉ mpH) →
+          ¬ (minN mpH.keys ≤ x.val ∧ x.val < minN mpH.keys + r.cs) := by
+        intro x hx ⟨h1, h2⟩
+        obtain ⟨k, hkm⟩ := hsurj (x.val - minN mpH.keys) (by omega)
+        have := hw hkm
+        have := hge hkm
+        have : k = x.val := by omega
+        exact hx _ (this ▸ hkm)
+      rcases hun with hun | hun
+      · exact Or.inl (key i hun)
+      · exact Or.inr (key j hun)
+  · -- PERM, processor, inverse PERM
+    set σ := permVect mpH with hσdef
+    have hσ : IsPermList σ.length σ := genPerm_ok_isPerm mpH _ hperm
+    have hLσ : σ.length = mpH.length + (missingModes mpH).length := permVect_length' mpH hkH
+    have hkL : r.cs ≤ σ.length := by omega
+    have hmpne : mpH ≠ [] := by
+      intro e; rw [e] at hL
+      cases mp with
+      | nil => exact hne rfl
+      | cons a t => simp at hlen; simp at hL; omega
+    have hN : minN mpH.keys + σ.length ≤ res.cs := by
+      have h1 : σ.length = maxN mpH.keys + 1 - minN mpH.keys := genPerm_length mpH hkH
+      have hpos : 0 < res.cs := by
+        cases mpH with
+        | nil => exact absurd rfl hmpne
+        | cons a t => have := hkeysN a.1 (by simp [NMap.keys]); omega
+      have h2 := maxN_lt hpos hkeysN
+      have h3 : minN mpH.keys ≤ maxN mpH.keys := by
+        cases mpH with
+        | nil => exact absurd rfl hmpne
+        | cons a t =>
+          have m : a.1 ∈ NMap.keys (a :: t) := by simp [NMap.keys]
+          exact le_trans (minN_le m) (le_maxN m)
+      omega
+    have hw : ∀ {k v}, (k, v) ∈ mpH → σ[k - minN mpH.keys]? = some v :=
+      fun hm => genPerm_wires mpH hkH hm
+    have hwlt : ∀ {k v}, (k, v) ∈ mpH → k - minN mpH.keys < σ.length := by
+      intro k v hm
+      by_contra hc
+      have := hw hm
+      rw [List.getElem?_eq_none (by omega)] at this
+      cases this
+    refine ⟨embed res.cs (minN mpH.keys) ((permMatF (permFn σ.length σ))ᴴ * embed σ.length 0 C
+        * permMatF (permFn σ.length σ)), ?_, ?_, ?_⟩
+    · have e : embed res.cs (minN mpH.keys) C =
+          embed res.cs (minN mpH.keys) (embed σ.length 0 C) := by
+        rw [embed_embed hN (by omega)]; rfl
+      simp only [composeMat, composeMatV, MatV.toMatrix_ofMatrix, permAt, permInvAt, ↓reduceIte]
+      rw [permMatL_eq_permMatF hσ, e, ← Matrix.mul_assoc, ← Matrix.mul_assoc, embed_mul hN,
+        embed_mul hN]
+    · intro ka kb va vb ha hb
+      have ga := hge ha; have gb := hge hb
+      have la := hwlt ha; have lb := hwlt hb
+      rw [embed_apply_in_gen _ ka kb ⟨ga, by omega⟩ ⟨gb, by omega⟩, block_apply]
+      have fa := permFn_eq_of_getElem hσ ⟨ka.val - minN mpH.keys, la⟩ (hw ha)
+      have fb := permFn_eq_of_getElem hσ ⟨kb.val - minN mpH.keys, lb⟩ (hw hb)
+      rw [embed_apply_in C _ _ (by rw [fa]; exact va.isLt) (by rw [fb]; exact vb.isLt)]
+      congr 1 <;> exact Fin.ext (by assumption)
+    · intro i j hun
+      -- an unwired mode inside the PERM is sent past the processor
+      have key : ∀ x : Fin res.cs, (∀ v, (x.val, v) ∉ mpH) →
+          ∀ hx : minN mpH.keys ≤ x.val ∧ x.val < minN mpH.keys + σ.length,
+          r.cs ≤ (permFn σ.length σ ⟨x.val - minN mpH.keys, by omega⟩).val := by
+        intro x hx hin
+        by_contra hc
+        have hlt' : (permFn σ.length σ ⟨x.val - minN mpH.keys, by omega⟩).val < r.cs := by omega
+        obtain ⟨k, hkm⟩ := hsurj _ hlt'
+        have h1 := hw hkm
+        have h2 := permFn_getElem hσ ⟨x.val - minN mpH.keys, by omega⟩
+        have := nodup_getElem?_eq hσ.2.1 h1 h2
+        have := hge hkm
+        have e : k = x.val := by simp only at *; omega
+        exact hx _ (e ▸ hkm)
+      by_cases hi : minN mpH.keys ≤ i.val ∧ i.val < minN mpH.keys + σ.length
+      · by_cases hj : minN mpH.keys ≤ j.val ∧ j.val < minN mpH.keys + σ.length
+        · rw [embed_apply_in_gen _ i j hi hj, block_apply]
+          have hout : ¬ (0 ≤ (permFn σ.length σ ⟨i.val - minN mpH.keys, by omega⟩).val ∧
+                (permFn σ.length σ ⟨i.val - minN mpH.keys, by omega⟩).val < 0 + r.cs) ∨
+              ¬ (0 ≤ (permFn σ.length σ ⟨j.val - minN mpH.keys, by omega⟩).val ∧
+                (permFn σ.length σ ⟨j.val - minN mpH.keys, by omega⟩).val < 0 + r.cs) := by
+            rcases hun with hun | hun
+            · left; have := key i hun hi; omega
+            · right; have := key j hun hj; omega
+          rw [embed_apply_out C _ _ hout]
+          by_cases e : i = j
+          · subst e; simp
+          · rw [if_neg e, if_neg]
+            intro e'
+            have := permFn_injective hσ e'
+            apply e
+            apply Fin.ext
+            have := congrArg Fin.val this
+            simp only at this
+            omega
+        · exact embed_apply_out _ i j (Or.inr hj)
+      · exact embed_apply_out _ i j (Or.inl hi)
+
+
+/-- **the matrix after `Processor.add(mapping, component)`, entry by entry**: the result is `A * left` where the
+column of a mapped left mode `kb ↦ vb` is column `vb` of the component, placed on rows `first … first+m-1`
+(`first` = smallest mapped mode) — light leaving left mode `kb` enters input `vb` of the component, which sits on
+modes `first …` —, and every mode outside `[min, max]` of the mapped modes is untouched (inside, unmapped modes
+are merely relabelled by the PERM: no inverse PERM follows a bare component). -/
+theorem compose_end_to_end_component (f1 : RFlags) (f2 f3 : Bool) (l r : Side) (raw : RawMap)
+    (keep : Bool) (res : Result) (hr : r.comp = true)
+    (h : compose f1 f2 f3 l r raw keep = .ok res)
+    (C : Matrix (Fin r.m) (Fin r.m) R) (left : Matrix (Fin res.cs) (Fin res.cs) R) :
+    ∃ A : Matrix (Fin res.cs) (Fin res.cs) R,
+      composeMat res.cs res.first r.m res.perm false C left = A * left ∧
+      (∀ (kb : Fin res.cs) (vb : Fin r.m), (kb.val, vb.val) ∈ res.map → ∀ i : Fin res.cs,
+        A i kb = if hi : res.first ≤ i.val ∧ i.val < res.first + r.m
+          then C ⟨i.val - res.first, by omega⟩ vb else 0) ∧
+      (∀ (i j : Fin res.cs), (i.val < res.first ∨ maxN res.map.keys < i.val) →
+        A i j = if i = j then 1 else 0) := by
+  obtain ⟨d, mp, perm, hd, hmp, hperm, hmap, -, hfirst, hp, -, hcs, -⟩ :=
+    compose_comp_inv f1 f2 f3 l r raw keep res hr h
+  obtain ⟨hne, hlen, hk, -, hlt, -⟩ := resolved_nmap_facts f1 l r raw d mp hd hmp
+  rw [hmap, hp]
+  have hmn : minN mp.keys = res.first := hfirst.symm
+  obtain ⟨hvn, hvb⟩ := legal_of_genPerm_ok mp hk perm hperm
+  have hvperm : IsPermList r.m mp.vals := ⟨by simp [NMap.vals, hlen], hvn, by rw [← hlen]; exact hvb⟩
+  have hkeysN : ∀ k ∈ mp.keys, k < res.cs := fun k hk' => by have := hlt k hk'; omega
+  have hge : ∀ {k v}, (k, v) ∈ mp → res.first ≤ k := fun hm => hmn ▸ minN_le (mem_keys_of_mem hm)
+  have hle : ∀ {k v}, (k, v) ∈ mp → k ≤ maxN mp.keys := fun hm => le_maxN (mem_keys_of_mem hm)
+  have hmpos : 0 < r.m := by rw [← hlen]; exact List.length_pos_iff.2 hne
+  rcases genPerm_ok_cases mp perm hperm with ⟨rfl, hid⟩ | rfl
+  · have hw : ∀ {k v}, (k, v) ∈ mp → v = k - res.first :=
+      fun hm => by rw [← hmn]; exact (genPerm_ok_wires mp hk none hperm hm).2 rfl
+    -- the largest right-hand mode sits on the largest mapped mode
+    have hmax : res.first + r.m ≤ maxN mp.keys + 1 := by
+      have := isPermList_mem hvperm (by omega : r.m - 1 < r.m)
+      obtain ⟨p, hp', e⟩ := List.mem_map.1 this
+      have h1 := hw (k := p.1) (v := p.2) hp'
+      have h2 := hge (k := p.1) (v := p.2) hp'
+      have h3 := hle (k := p.1) (v := p.2) hp'
+      omega
+    refine ⟨embed res.cs (res.first) C, ?_, ?_, ?_⟩
+    · simp [composeMat, composeMatV, permAt]
+    · intro kb vb hb i
+      have eb := hw hb; have gb := hge hb
+      have hbin : res.first ≤ kb.val ∧ kb.val < res.first + r.m := ⟨gb, by have := vb.isLt; omega⟩
+      by_cases hi : res.first ≤ i.val ∧ i.val < res.first + r.m
+      · rw [dif_pos hi, embed_apply_in_gen C i kb hi hbin]
+        congr 1; exact Fin.ext (by simp only; omega)
+      · rw [dif_neg hi, embed_apply_out C i kb (Or.inl hi), if_neg]
+        rintro rfl; exact hi hbin
+    · intro i j hi
+      exact embed_apply_out C i j (Or.inl (by omega))
+  · set σ := permVect mp with hσdef
+    have hσ : IsPermList σ.length σ := genPerm_ok_isPerm mp _ hperm
+    have hLσ : σ.length = mp.length + (missingModes mp).length := permVect_length' mp hk
+    have hkL : r.m ≤ σ.length := by omega
+    have h1 : σ.length = maxN mp.keys + 1 - res.first := hmn ▸ genPerm_length mp hk
+    have h3 : res.first ≤ maxN mp.keys := by
+      cases mp with
+      | nil => exact absurd rfl hne
+      | cons a t =>
+        have m : a.1 ∈ NMap.keys (a :: t) := by simp [NMap.keys]
+        rw [← hmn]
+        exact le_trans (minN_le m) (le_maxN m)
+    have hN : res.first + σ.length ≤ res.cs := by
+      have hpos : 0 < res.cs := by
+        cases mp with
+        | nil => exact absurd rfl hne
+        | cons a t => have := hkeysN a.1 (by simp [NMap.keys]); omega
+      have h2 := maxN_lt hpos hkeysN
+      omega
+    have hw : ∀ {k v}, (k, v) ∈ mp → σ[k - res.first]? = some v :=
+      fun hm => hmn ▸ genPerm_wires mp hk hm
+    have hwlt : ∀ {k v}, (k, v) ∈ mp → k - res.first < σ.length := by
+      intro k v hm
+      by_contra hc
+      have := hw hm
+      rw [List.getElem?_eq_none (by omega)] at this
+      cases this
+    refine ⟨embed res.cs (res.first) (embed σ.length 0 C * permMatF (permFn σ.length σ)), ?_, ?_, ?_⟩
+    · have e : embed res.cs (res.first) C = embed res.cs (res.first) (embed σ.length 0 C) := by
+        rw [embed_embed hN (by omega)]; rfl
+      simp only [composeMat, composeMatV, MatV.toMatrix_ofMatrix, permAt, Bool.false_eq_true,
+        ↓reduceIte]
+      rw [permMatL_eq_permMatF hσ, e, ← Matrix.mul_assoc, embed_mul hN]
+    · intro kb vb hb i
+      have gb := hge hb; have lb := hwlt hb
+      have fb := permFn_eq_of_getElem hσ ⟨kb.val - res.first, lb⟩ (hw hb)
+      have hbin : res.first ≤ kb.val ∧ kb.val < res.first + σ.length := ⟨gb, by omega⟩
+      by_cases hiL : res.first ≤ i.val ∧ i.val < res.first + σ.length
+      · rw [embed_apply_in_gen _ i kb hiL hbin, mul_permMatF_apply]
+        by_cases hi : res.first ≤ i.val ∧ i.val < res.first + r.m
+        · rw [dif_pos hi, embed_apply_in C _ _ (by simp only; omega) (by rw [fb]; exact vb.isLt)]
+          congr 1; exact Fin.ext fb
+        · rw [dif_neg hi, embed_apply_out C _ _ (Or.inl (by simp only; omega)), if_neg]
+          intro e
+          have := congrArg Fin.val e
+          rw [fb] at this
+          simp only at this
+          have := vb.isLt
+          omega
+      · have hi : ¬ (res.first ≤ i.val ∧ i.val < res.first + r.m) := by omega
+        rw [dif_neg hi, embed_apply_out _ i kb (Or.inl hiL), if_neg]
+        rintro rfl; exact hiL hbin
+    · intro i j hi
+      exact embed_apply_out _ i j (Or.inl (by omega))
 
 /-! ## non-vacuity of the end-to-end statements -/
 
@@ -937,12 +2048,12 @@ example : exR.comp = false ∧ exL.conn.length = exL.cs ∧ exL.heralds = herald
   · unfold RightWF; decide
 
 /-- `add([2], exR)` on `exL`: accepted; modes 3 and 4 are appended for the heralds on positions 2 and 0 -/
-example : exObs (compose true true true exL exR (.ofList [2]) false) =
+example : exObs (compose .all true true exL exR (.ofList [2]) false) =
     .ok ⟨5, [(1, 0), (3, 1), (4, 0)], [none, some "pnr", none, some "threshold", some "pnr"],
       some [1, 2, 0], [true, false, true, false, false]⟩ := by decide
 
 /-- `add([2, 0], component)` on `exL`: nothing changes in the bookkeeping -/
-example : exObs (compose true true true exL exC2 (.ofList [2, 0]) false) =
+example : exObs (compose .all true true exL exC2 (.ofList [2, 0]) false) =
     .ok ⟨3, [(1, 0)], [none, some "pnr", none], some [1, 2, 0], [true, false, true]⟩ := by decide
 
 /-- hypotheses of `genPerm_never_raises` / `genPerm_ok_iff` on `{2: 1, 3: 2, 4: 0}`; an illegal mapping
@@ -954,20 +2065,134 @@ example : ([(2, 1), (3, 2), (4, 0)] : NMap) ≠ [] ∧ (NMap.keys [(2, 1), (3, 2
     genPerm [(0, 0), (1, 2)] = .error .assertion := by decide
 
 /-- the offset and list forms on the same objects -/
-example : resolve true exL exR (.ofInt 2) = .ok [(2, 1)] ∧ intMap 2 exR = [(2, 1)] ∧
-    resolve true exL exR (.ofInt 1) = .error .unavailable ∧
-    resolve true exL exC2 (.ofList [2, 0]) = .ok [(2, 0), (0, 1)] ∧
+example : resolve .all exL exR (.ofInt 2) = .ok [(2, 1)] ∧ intMap 2 exR = [(2, 1)] ∧
+    resolve .all exL exR (.ofInt 1) = .error .unavailable ∧
+    resolve .all exL exC2 (.ofList [2, 0]) = .ok [(2, 0), (0, 1)] ∧
     listMap [2, 0] exC2 = [(2, 0), (0, 1)] ∧
-    resolve true exL exC2 (.ofList [2, 2]) = .error .invalid ∧
-    resolve true exL exC2 (.ofList [2]) = .error .invalid ∧
-    resolve true exL exC2 (.ofList [2, 1]) = .error .unavailable ∧
+    resolve .all exL exC2 (.ofList [2, 2]) = .error .invalid ∧
+    resolve .all exL exC2 (.ofList [2]) = .error .invalid ∧
+    resolve .all exL exC2 (.ofList [2, 1]) = .error .unavailable ∧
     0 < exR.m ∧ 0 < exC2.m := by decide
 
 example : RightWF exC2 := by unfold RightWF; decide
 
 /-- `compose_no_perm_assertion` is not vacuous: with a left post-selection on modes {0, 1}, plugging onto
 mode 0 and 2 trips the `can_compose_with` assertion -/
-example : exObs (compose true true true { exL with ps := some (.cond [0, 1] .eq 1) } exC2
+example : exObs (compose .all true true { exL with ps := some (.cond [0, 1] .eq 1) } exC2
     (.ofList [2, 0]) false) = .error .assertion := by decide
+
+/-! ## non-vacuity of the extension (dictionary forms, ports, post-selection, end-to-end matrix) -/
+
+/-- 4-mode left processor: a one-mode port `a` on mode 0, a two-mode port `d` on modes 1-2 -/
+def exLp : Side :=
+  { comp := false, m := 4, cs := 4, conn := [true, true, true, true], heralds := [], dets := [none, none, none, none],
+    outp := [⟨0, 1, "a", false, 0, none⟩, ⟨1, 2, "d", false, 0, none⟩],
+    inp := [⟨0, 1, "a", false, 0, none⟩, ⟨1, 2, "d", false, 0, none⟩],
+    outNames := ["a", "d", "d", ""], inNames := ["a", "d", "d", ""], ps := none }
+
+/-- 3-mode right processor: herald on mode 0 (expected 1), a two-mode port `rd` on modes 1-2, post-selection
+`[1] == 1` -/
+def exRp : Side :=
+  { comp := false, m := 2, cs := 3, conn := [false, true, true], heralds := [(0, 1)], dets := [none, none, none],
+    outp := [⟨0, 1, "herald0", true, 1, none⟩, ⟨1, 2, "rd", false, 0, none⟩],
+    inp := [⟨0, 1, "herald0", true, 1, none⟩, ⟨1, 2, "rd", false, 0, none⟩],
+    outNames := ["herald0", "rd", "rd"], inNames := ["herald0", "rd", "rd"],
+    ps := some (.cond [1] .eq 1) }
+
+/-- a bare 1-mode component -/
+def exC1 : Side :=
+  { comp := true, m := 1, cs := 1, conn := [true], heralds := [], dets := [], outp := [], inp := [],
+    outNames := [], inNames := [], ps := none }
+
+/-- every key form of a dictionary mapping, on the repaired model -/
+example :
+    itemPairs .all exLp exRp (.name "a", .int 2) = .ok [(0, 2)] ∧
+    itemPairs .all exLp exRp (.name "d", .list [2, 1]) = .ok [(1, 2), (2, 1)] ∧
+    itemPairs .all exLp exRp (.name "d", .name "rd") = .ok [(1, 1), (2, 2)] ∧
+    itemPairs .all exLp exRp (.int 3, .list [1]) = .ok [(3, 1)] ∧
+    itemPairs .all exLp exRp (.int 3, .name "rd") = .error .invalid ∧
+    itemPairs .all exLp exRp (.name "zz", .int 0) = .error .invalid ∧
+    itemPairs .all exLp exRp (.name "d", .int 0) = .error .invalid ∧
+    itemPairs .all exLp exC2 (.name "d", .int 0) = .error .assertion ∧
+    itemPairs .all exLp exRp (.name "d", .list [1]) = .error .invalid := by decide
+
+/-- `add({'d': 'rd'}, exRp)` and `add({'d': [2, 1]}, exRp)` on `exLp`; an unknown port; a value on the herald mode
+of the added processor passes `resolve` and is caught by PERM's assertion only (`genPerm_ok_iff_vals_moi`) -/
+example :
+    resolve .all exLp exRp (.ofDict [(.name "d", .name "rd")]) = .ok [(1, 1), (2, 2)] ∧
+    resolve .all exLp exRp (.ofDict [(.name "d", .list [2, 1])]) = .ok [(1, 2), (2, 1)] ∧
+    resolve .all exLp exRp (.ofDict [(.name "q", .name "rd")]) = .error .invalid ∧
+    resolve .all exLp exRp (.ofDict [(.name "d", .list [0, 1])]) = .ok [(1, 0), (2, 1)] ∧
+    exObs (compose .all true true exLp exRp (.ofDict [(.name "d", .list [0, 1])]) true) = .error .assertion ∧
+    0 < exRp.m ∧ typeChecks exRp [(.name "d", .name "rd")] = true := by decide
+
+/-- the behaviour as found (`skip = false`): `{0: [0], 1: 0}` on a one-mode component is accepted, the first
+item being silently ignored; repaired, the two pairs make a mapping of the wrong size.  `{0: [0]}` alone is
+refused as found and accepted repaired.  A left mode named twice: the last value wins (`dictOf_mem_iff`). -/
+example :
+    resolve ⟨true, false⟩ exLp exC1 (.ofDict [(.int 0, .list [0]), (.int 1, .int 0)]) = .ok [(1, 0)] ∧
+    resolve .all exLp exC1 (.ofDict [(.int 0, .list [0]), (.int 1, .int 0)]) = .error .invalid ∧
+    resolve ⟨true, false⟩ exLp exC1 (.ofDict [(.int 0, .list [0])]) = .error .invalid ∧
+    resolve .all exLp exC1 (.ofDict [(.int 0, .list [0])]) = .ok [(0, 0)] ∧
+    resolve ⟨false, true⟩ exLp exC1 (.ofDict [(.name "a", .int 0)]) = .error .invalid ∧
+    resolve .all exLp exC1 (.ofDict [(.name "a", .int 0)]) = .ok [(0, 0)] ∧
+    resolve .all exLp exC1 (.ofDict [(.name "a", .int 5), (.int 0, .int 0)]) = .ok [(0, 0)] ∧
+    lastVal [(0, 5), (0, 0)] 0 = some 0 := by decide
+
+/-- what the examples look at in the ports / post-selection of the outcome -/
+structure ExPorts where
+  inp : List (Nat × Nat × String)
+  outp : List (Nat × Nat × String)
+  inNames : Option (List String)
+  outNames : Option (List String)
+  ps : Option (List (List Nat))
+deriving DecidableEq
+
+def exPorts : Except Err Result → Except Err ExPorts
+  | .ok res => .ok ⟨res.inp.map fun p => (p.start, p.size, p.name), res.outp.map fun p => (p.start, p.size, p.name),
+      portNames res.cs res.inp, portNames res.cs res.outp, res.ps.map (·.conds)⟩
+  | .error e => .error e
+
+/-- `add({'d': 'rd'}, exRp)`: the port `rd` is re-attached on modes 1-2 on the input side, where `d` is no input
+port of … no: `d` is still there, so `rd` is dropped on both sides (modes not free); the herald is appended on
+mode 4 on both sides; the post-selection `[1] == 1` is carried over onto mode 1 -/
+example : exPorts (compose .all true true exLp exRp (.ofDict [(.name "d", .name "rd")]) true) =
+    .ok ⟨[(0, 1, "a"), (1, 2, "d"), (4, 1, "herald#")], [(0, 1, "a"), (1, 2, "d"), (4, 1, "herald#")],
+      some ["a", "d", "d", "", "herald#"], some ["a", "d", "d", "", "herald#"], some [[1]]⟩ := by decide
+
+/-- with `keep_port = False` the output port `d` is removed first, so `rd` is re-attached on the output side; a
+crossed mapping `{'d': [2, 1]}` does not send `rd` onto consecutive modes in order: it is dropped, and the
+post-selection on right-hand mode 1 lands on left mode 2 -/
+example :
+    exPorts (compose .all true true exLp exRp (.ofDict [(.name "d", .name "rd")]) false) =
+      .ok ⟨[(0, 1, "a"), (1, 2, "d"), (4, 1, "herald#")], [(0, 1, "a"), (4, 1, "herald#"), (1, 2, "rd")],
+        some ["a", "d", "d", "", "herald#"], some ["a", "rd", "rd", "", "herald#"], some [[1]]⟩ ∧
+    exPorts (compose .all true true exLp exRp (.ofDict [(.name "d", .list [2, 1])]) false) =
+      .ok ⟨[(0, 1, "a"), (1, 2, "d"), (4, 1, "herald#")], [(0, 1, "a"), (4, 1, "herald#")],
+        some ["a", "d", "d", "", "herald#"], some ["a", "", "", "", "herald#"], some [[2]]⟩ := by decide
+
+/-- hypotheses of `ports_stay_disjoint`, `port_names_after_add`, `compose_end_to_end_processor` on these objects -/
+example : PortsDisjoint exLp.inp ∧ PortsDisjoint exLp.outp ∧ (∀ p ∈ exLp.inp, p.start + p.size ≤ exLp.cs) ∧
+    (∀ p ∈ exLp.outp, p.start + p.size ≤ exLp.cs) ∧ RightWF exRp ∧ exRp.comp = false := by
+  have hd : PortsDisjoint [(⟨0, 1, "a", false, 0, none⟩ : Port), ⟨1, 2, "d", false, 0, none⟩] := by
+    unfold PortsDisjoint
+    simp only [List.pairwise_cons, List.mem_singleton, forall_eq, List.not_mem_nil, false_implies,
+      implies_true, List.Pairwise.nil, and_true, covers]
+    intro m
+    omega
+  refine ⟨hd, hd, by decide, by decide, ?_, rfl⟩
+  unfold RightWF; decide
+
+/-- merged post-selection and its refusal: a left post-selection on mode 3 composes with the carried-over one on
+mode 1; one on mode 1 shares a mode with it -> `RuntimeError`; one on modes {1, 3} straddles the mapped modes
+-> the `can_compose_with` assertion -/
+example :
+    exPorts (compose .all true true { exLp with ps := some (.cond [3] .eq 0) } exRp (.ofInt 1) true) =
+      .ok ⟨[(0, 1, "a"), (1, 2, "d"), (4, 1, "herald#")], [(0, 1, "a"), (1, 2, "d"), (4, 1, "herald#")],
+        some ["a", "d", "d", "", "herald#"], some ["a", "d", "d", "", "herald#"], some [[3], [1]]⟩ ∧
+    exObs (compose .all true true { exLp with ps := some (.cond [1, 2] .eq 0) } exRp (.ofInt 1) true) =
+      .error .runtime ∧
+    exObs (compose .all true true { exLp with ps := some (.cond [1, 3] .eq 0) } exRp (.ofInt 1) true) =
+      .error .assertion := by decide
 
 end PM.C10
